@@ -253,7 +253,7 @@ impl Prop for C06P {
     }
     fn plan(&self, tier: Tier, _seed: u64) -> Plan {
         let mut p = Plan::new(
-            vec![sec("pinned", 200), sec("programs-and-reducts", tier.pick(10_000, 200_000)), sec("pairs-of-same-type", tier.pick(8_000, 160_000)), sec("edited-pairs", tier.pick(8_000, 160_000))],
+            vec![sec("pinned", 200), sec("programs-and-reducts", tier.pick(20_000, 200_000)), sec("pairs-of-same-type", tier.pick(16_000, 160_000)), sec("edited-pairs", tier.pick(16_000, 160_000))],
             "generated explicit programs of ground and function type (strongly normalising by construction): unify(t, t); unify of t with each of its first 30 reducts on the evaluation trace, in both directions; normalize_weak_head of ground programs against the evaluated literal; pairs of independently generated terms of the same type, pairs (t, perturbed t) and pairs (t, structurally edited t: tweaked literal, flipped boolean, dropped/swapped/duplicated definitions of a group, swapped branches or operands; kept when R-core accepts the edit at the same type): unify(a, b) = unify(b, a) = equality of the reference's normal forms; non-trivial = distinct hole-free accepted program or pair",
         );
         p.assumptions = vec![
